@@ -374,7 +374,9 @@ fn identifier_entries(y: &Yaml, doc: &Yaml) -> R<Vec<Tri>> {
             let (k, v) = m.iter().next().unwrap();
             let (md, f) = parse_key(k.as_str().ok_or(Unsupported("key".into()))?)?;
             match (md, v) {
-                (Mod::None, Yaml::Sequence(ms)) => ms.iter().map(|x| eval_member(doc, &f, Mod::None, x)).collect(),
+                // a one-key mapping *is* its value: a list under a plain or cast key contributes
+                // its members (read through that cast); not()/all()/of() keys are one entry
+                (Mod::None | Mod::Int | Mod::Flt | Mod::Str, Yaml::Sequence(ms)) => ms.iter().map(|x| eval_member(doc, &f, md, x)).collect(),
                 _ => Ok(vec![eval_entry(doc, k, v)?]),
             }
         }
